@@ -566,7 +566,7 @@ func main() {
 				coqfmt.FastPreamble +
 				"Definition E : env := " + p.Coq() + ".\n" +
 				"Definition mismatches := mismatches_from E N0.\n"
-			writers[pi] = casefile.New(dir, pre, 150)
+			writers[pi] = casefile.New(dir, pre, 80)
 		}
 		return writers[pi]
 	}
